@@ -232,6 +232,8 @@ op = st.one_of(
     st.tuples(st.just("idle"), st.sampled_from([3.0, 12.0, 12.0, 60.0])),
     # macro: requestSeed, silence (optionally kept "alive" by TesterPresent afterwards), then a sendKey for that level
     st.tuples(st.just("stalekey"), st.integers(0, 50), st.sampled_from([3.0, 12.0, 12.0]), st.booleans()),
+    # macro: enter a session, keep it alive for 12-30 s with suppressed TesterPresent every 4-6 s, then ask which session is active
+    st.tuples(st.just("keepalive"), st.integers(0, 50), st.integers(3, 5), st.sampled_from([4.0, 6.0])),
 )
 
 
@@ -241,6 +243,8 @@ def expand(o: tuple[Any, ...]) -> list[tuple[Any, ...]]:
         # reset through an offered sub-function, then poll with the same request until the ECU is back (as wait_for_ecu does)
         poll = ("tp", False) if o[2] == 0 else ("f186",) if o[2] == 1 else ("raw", b"\x22\xf1\x90")
         return [("reset_offered", o[1]), poll, poll, poll]
+    if o[0] == "keepalive":
+        return [("dsc_offered", o[1], False)] + [e for _ in range(o[2]) for e in (("idle", o[3]), ("tp", True))] + [("idle", o[3]), ("f186",)]
     if o[0] == "stalekey":
         return [("seedkey_seed", o[1]), ("idle", o[2])] + ([("tp", False)] if o[3] else []) + [("stalekey_key", o[1])]
     if o[0] == "unlock":
